@@ -24,17 +24,21 @@ func init() {
 // SelectableWaitGroup is a wait group that can be used in a select block!
 // you _must_ use the `NewSelectableWaitGroup` function to construct one.
 type SelectableWaitGroup struct {
-	count atomic.Int64
-	wChan atomic.Pointer[chan struct{}]
+	// state is replaced as a whole by compare-and-swap so that the count and the channel
+	// waiters receive can never be observed (or left) out of step with each other.
+	state atomic.Pointer[wgState]
+}
+
+// wgState is an immutable (count, channel) pair; wChan is closedChan exactly when count is 0.
+type wgState struct {
+	count int
+	wChan chan struct{}
 }
 
 // NewSelectableWaitGroup creates a new SelectableWaitGroup.
 func NewSelectableWaitGroup() *SelectableWaitGroup {
-	wg := &SelectableWaitGroup{
-		count: atomic.Int64{},
-		wChan: atomic.Pointer[chan struct{}]{},
-	}
-	wg.wChan.Store(&closedChan)
+	wg := &SelectableWaitGroup{}
+	wg.state.Store(&wgState{count: 0, wChan: closedChan})
 	return wg
 }
 
@@ -50,39 +54,31 @@ func (wg *SelectableWaitGroup) Dec() int {
 
 // Add can be used to add or subtract a number from the wait group.
 func (wg *SelectableWaitGroup) Add(delta int) int {
-	newV := wg.count.Add(int64(delta))
-	if newV == 0 {
-		oldChan := wg.wChan.Swap(&closedChan)
-		if oldChan != &closedChan {
-			close(*oldChan)
+	for {
+		old := wg.state.Load()
+		next := &wgState{count: old.count + delta, wChan: old.wChan}
+		if next.count == 0 {
+			next.wChan = closedChan
+		} else if old.wChan == closedChan {
+			next.wChan = make(chan struct{})
 		}
-	} else if delta > 0 && newV == int64(delta) {
-		newChan := make(chan struct{})
-		if !wg.wChan.CompareAndSwap(&closedChan, &newChan) {
-			close(newChan)
+		if wg.state.CompareAndSwap(old, next) {
+			if next.count == 0 && old.wChan != closedChan {
+				close(old.wChan)
+			}
+			return next.count
 		}
 	}
-
-	return int(newV)
 }
 
 // Count returns current count of the wait group.
 func (wg *SelectableWaitGroup) Count() int {
-	return int(wg.count.Load())
+	return wg.state.Load().count
 }
 
 // Wait returns a channel to use in a select block when the wait group reaches zero.
 func (wg *SelectableWaitGroup) Wait() <-chan struct{} {
-	// there is a race between updating the counter and updating the channel
-	// .. so to make sure we have a consistent state check that we don't have a > zero count
-	// but a closed channel. Do this repeatedly until the result makes sense.
-	for {
-		count := wg.count.Load()
-		wgChan := wg.wChan.Load()
-		if count == 0 || (count > 0 && wgChan != &closedChan) {
-			return *wgChan
-		}
-	}
+	return wg.state.Load().wChan
 }
 
 // WaitCTX waits for the group to complete or for a context to be done.
